@@ -258,8 +258,12 @@ def parse_harness(outfile):
     return cases, fails, stats, samples
 
 
-def run_driver(outfile, modelfile):
-    drv = os.path.join(LEAN, ".lake", "build", "bin", "dspdriver")
+def driver_name(prop):
+    return "dspdriver_" + prop.lower()
+
+
+def run_driver(prop, outfile, modelfile):
+    drv = os.path.join(LEAN, ".lake", "build", "bin", driver_name(prop))
     with open(outfile) as fi, open(modelfile, "w") as fo:
         p = subprocess.run([drv], stdin=fi, stdout=fo, stderr=subprocess.PIPE, text=True)
     return p.returncode, p.stderr
@@ -351,14 +355,14 @@ def main():
 
         # ---- PROOF
         module = cfgp["lean_props"]
-        ok, log = lake_build([module, "dspdriver"])
+        ok, log = lake_build([module, driver_name(prop)])
         axioms = {}
         if not ok:
             # which file failed?
             errs = re.findall(r"error: (\S+\.lean:\d+:\d+: .*)", log)
             broken.append(("PROOF", "lake build %s" % module, "\n".join(errs[:8]) or log[-1500:]))
             # driver may still be buildable (model unaffected)
-            okd, _ = lake_build(["dspdriver"])
+            okd, _ = lake_build([driver_name(prop)])
         else:
             okd = True
             axioms, problems = audit(module, tier == "thorough")
@@ -406,7 +410,7 @@ def main():
             # model driver
             if cases and okd:
                 modelfile = os.path.join(WORK, "model-%s.txt" % tag)
-                drc, derr = run_driver(outfile, modelfile)
+                drc, derr = run_driver(prop, outfile, modelfile)
                 mlines = open(modelfile).read().split("\n")
                 if mlines and mlines[-1] == "":
                     mlines.pop()
